@@ -24,4 +24,39 @@ func init() {
 		}
 	}
 	evidenceRules["C01"] = "run submitted >= 3 Byzantine (mutated) MsgRecvPacket messages derived from genuine ones"
+	set := func(p, rule string, extra ...string) {
+		if evidenceRules[p] == "" {
+			evidenceRules[p] = rule
+		}
+		assumptions[p] = append(assumptions[p], extra...)
+	}
+	set("C02", "run replayed >= 3 logged receive messages (old bytes and proofs, or fresh proofs) among duplicated / reordered deliveries and cleans, and ended with the fault-free completeness tail",
+		"completeness is asserted only when every precondition was observed by query just before submission (client Active, receipt absent, sequence above the clean point, commitment present, route registered)")
+	set("C03", "run submitted >= 3 Byzantine (mutated or replayed) MsgAcknowledgement messages derived from genuine ones")
+	set("C04", "run completed >= 3 cross-chain NFT transfers over adversarial class names",
+		"receivers are user accounts or invalid strings, never a module account; every tx is executed in its own block so that token changes are attributable")
+	set("C05", "run completed >= 3 cross-chain MT transfers with amounts from the boundary set {1,2,7,1000,2^32,2^63-1,2^63,2^64-2,2^64-1}",
+		"which class on the receiving chain is the voucher of an asset is learnt from the first observed receive, never computed from the path")
+	set("C06", "round-trip profile: >= 1 tour completed; refund profile: >= 1 error-acknowledged transfer checked",
+		"hook H2 (token-keeper fault injection) is not built: the 'destination keeper fault' failure point is not exercised; failure points covered are invalid receiver, relay-chain refusal by rule, zero MT amount")
+	set("C09", "run executed >= 5 successful sends and >= 2 failing send txs in multi-tx / multi-msg blocks")
+	set("C10", "run had >= 1 accepted clean and >= 1 relayed MsgRecvCleanPacket",
+		"completeness of cleans is asserted on the source chain only (the statement gives only-if conditions elsewhere)")
+	set("C11", "run pushed >= 3 packets through the relay chain (twin profile: always)")
+	set("C12", "run changed the stored rule set >= 1 time through a real governance proposal and probed >= 50 triples",
+		"what is sampled is predominantly the input space (rule strings and triples); the simulated part is the governance history that establishes the rules as chain state")
+	set("C13", "run submitted >= 3 port / relay-chain edits of genuine messages")
+	set("C14", "run made >= 3 observations (Status + update [+ receive + ack]) at forced block times around expiry",
+		"BSC / ETH: Status() and MsgUpdateClient are observed; packet messages through an expired BSC/ETH client are not (their proof path is covered by C08)",
+		"exact equality at the boundary (and the open second for second-granularity clients) is checked for consistency only")
+	set("C15", "run had >= 2 refused and >= 1 effective privileged requests",
+		"'another client type' payloads are BSC client states (08-bsc) offered to a Tendermint client")
+	set("C16", "the re-imported shadow executed >= 10 shared blocks after the export",
+		"irismod nft/mt genesis is outside TIBC: its differences are aligned silently and counted (irismod-genesis-keys-aligned); after the export the workload avoids operations that allocate new MT ids",
+		"app hashes and gas legitimately differ after re-import and are not compared")
+	set("C19", "run produced >= 5 failing transactions whose five-store dump was compared before/after",
+		"hook H2 (token-keeper fault injection) is not built: failures after partial writes inside an application callback are not injected")
+	set("C20", "history of >= 60 blocks re-executed in-process (noise + restarts) and in >= 1 fresh OS process",
+		"the race-detector tier is not built")
+	set("C08", "run made >= 20 Verify* probes against client states built by real header updates")
 }
